@@ -93,7 +93,7 @@ def final_state(kind, path):
             try:
                 data = b"".join(st.get_file(n, ct, et).content)
                 out[n] = hashlib.sha1(data).hexdigest()[:12]
-                if storesys.etag_scheme(kind, data) != et:
+                if storesys.scheme_holds(kind) and storesys.etag_scheme(kind, data) != et:
                     problems.append("etag-mismatch:%s" % n)
             except Exception as e:
                 problems.append("unreadable-member:%s:%s" % (n, type(e).__name__))
